@@ -100,7 +100,7 @@ class Explorer:
                 return not self._memo[k2]
         i = len(p.decisions)
         if i < len(self._prefix):
-            val = self._prefix[i]
+            val = self._prefix[i][0]
         else:
             rt = self.check(*p.pc, cond)
             rf = self.check(*p.pc, z3.Not(cond))
@@ -109,7 +109,7 @@ class Explorer:
                 raise Inconclusive("solver unknown in decide")
             if rt == z3.sat and rf == z3.sat:
                 val = True
-                self._work.append(list(p.decisions) + [False])
+                self._work.append(list(p.decisions) + [(False, None)])
             elif rt == z3.sat:
                 val = True
             elif rf == z3.sat:
@@ -117,19 +117,41 @@ class Explorer:
             else:
                 # path condition itself infeasible: cannot happen for a followed path
                 raise PathAbort()
-        p.decisions.append(val)
+        p.decisions.append((val, None))
         self.n_decisions += 1
         p.pc.append(cond if val else z3.Not(cond))
         self._memo[key] = val
         return val
 
-    def concretize(self, term, lo=-8, hi=64):
-        """Fork over the feasible integer values of `term` (small range)."""
-        for k in range(lo, hi + 1):
-            if self.decide(term == k):
+    def concretize(self, term, lo=-(2 ** 40), hi=2 ** 40):
+        """Fork over the feasible integer values of `term`: model-guided enumeration (one value per path)."""
+        p = self._path
+        for _ in range(4096):
+            i = len(p.decisions)
+            if i < len(self._prefix):
+                val, k = self._prefix[i]
+            else:
+                r, m = self.model_of(*p.pc)
+                if r == z3.unsat:
+                    raise PathAbort()
+                if r != z3.sat:
+                    self.poison("solver unknown while concretising a value")
+                    raise Inconclusive("solver unknown in concretize")
+                k = m.eval(term, model_completion=True).as_long()
+                ro = self.check(*p.pc, term != k)
+                if str(ro) == "unknown":
+                    self.poison("solver unknown while concretising a value")
+                    raise Inconclusive("solver unknown in concretize")
+                if ro == z3.sat:
+                    self._work.append(list(p.decisions) + [(False, k)])
+                val = True
+            p.decisions.append((val, k))
+            self.n_decisions += 1
+            p.pc.append(term == k if val else term != k)
+            if val:
                 return k
-        self.poison(f"concretize: value of {term} outside [{lo},{hi}]")
-        raise Inconclusive("concretize out of range")
+        self.poison(f"concretize: too many values for {term}")
+        raise Inconclusive("concretize: too many values")
 
     def side_condition(self, cond, what):
         """`cond` must hold on every admissible input reaching this point (else model is out of its domain)."""
